@@ -59,10 +59,22 @@ class ZX(ASTNode):  # fixed pair, first element typed to the leaf family
 
 
 @dataclass(frozen=True)
-class ZM(ASTNode):  # mixed: optional, tuple, union-typed optional
+class ZM(ASTNode):  # mixed: optional, tuple, union-typed optional; container-like (iterable, sized, indexable)
     a: ASTNode | None = None
     items: tuple[ASTNode, ...] = ()
     b: ZL | ZV | None = None
+
+    def __iter__(self):
+        return iter(self.items)
+
+    def __len__(self) -> int:
+        return len(self.items)
+
+    def __getitem__(self, i):
+        return self.items[i]
+
+    def __contains__(self, x) -> bool:
+        return any(x is y for y in self.items)
 
 
 @dataclass(frozen=True)
